@@ -238,7 +238,18 @@ impl TryFrom<OpenFile> for Stdio {
         // fail (e.g. under descriptor exhaustion), so the conversion is fallible and the error is
         // surfaced to the caller rather than silently degrading the child's streams.
         match open_file {
-            OpenFile::Stdin(_) | OpenFile::Stdout(_) | OpenFile::Stderr(_) => Ok(Self::inherit()),
+            // Hand over *this* stream, whichever of the child's descriptors it is meant for
+            // (`2>&1` must give the child our stdout as its stderr, not whatever we have as stderr).
+            #[cfg(unix)]
+            OpenFile::Stdin(_) | OpenFile::Stdout(_) | OpenFile::Stderr(_) => {
+                Ok(open_file.try_clone_to_owned()?.into())
+            }
+            #[cfg(not(unix))]
+            OpenFile::Stdin(_) => Ok(Self::inherit()),
+            #[cfg(not(unix))]
+            OpenFile::Stdout(f) => Ok(f.into()),
+            #[cfg(not(unix))]
+            OpenFile::Stderr(f) => Ok(f.into()),
             OpenFile::File(f) => Ok(f.try_clone()?.into()),
             OpenFile::PipeReader(r) => Ok(r.try_clone()?.into()),
             OpenFile::PipeWriter(w) => Ok(w.try_clone()?.into()),
